@@ -11,6 +11,7 @@ fn setup(t: DeviceType, features: u64) -> KTransport {
     let mut tr = KTransport::new(t);
     tr.device_features = features;
     tr.legacy = false;
+    tr.unset_noop = kani::any();
     let fail_at: usize = kani::any();
     kani::assume(fail_at <= 5);
     unsafe { LOG.fail_alloc_at = fail_at; }
